@@ -30,6 +30,18 @@ func genEventPatterns(r *rand.Rand) []PatSpec {
 			p.Calls = []string{"set"}
 		}
 	}
+	if chance(r, 40) {
+		// the handler registered last also declares listeners for the
+		// other patterns of its Mux: they are added after the listeners
+		// those patterns have of their own
+		last := &pats[len(pats)-1]
+		for i := range pats[:len(pats)-1] {
+			if strings.Join(pats[i].Mounts, "/") == strings.Join(last.Mounts, "/") {
+				pats[i].Extra3 = true
+				last.Cross = true
+			}
+		}
+	}
 	return pats
 }
 
@@ -177,7 +189,11 @@ func expectEventLog(p *PatSpec, pi int, script []string, id int, rname, inbox st
 	pub := func(subj string) { log = append(log, "pub "+subj) }
 	var listeners func(name, dig string)
 	listeners = func(name, dig string) {
-		for _, li := range listenerOrder(p.Listen) {
+		order := listenerOrder(p.Listen)
+		if p.Extra3 {
+			order = append(append([]int{}, order...), 3)
+		}
+		for _, li := range order {
 			log = append(log, fmt.Sprintf("listener %d %s %s %s", li, name, rname, dig))
 			if li == 0 && p.Nest && name != "nested" {
 				pub("event." + rname + ".nested")
